@@ -7,9 +7,14 @@ Open Scope Z_scope.
 Ltac Zify.zify_post_hook ::= Z.to_euclidean_division_equations.
 
 (* ------------------------------------------------------------------ rnd_hev *)
+Lemma rnd_hev_unfold : forall n d, rnd_hev n d =
+  if 2 * (n mod d) <? d then n / d else if d <? 2 * (n mod d) then n / d + 1
+  else if Z.even (n / d) then n / d else n / d + 1.
+Proof. intros n d. unfold rnd_hev, Z.div, Z.modulo. destruct (Z.div_eucl n d). reflexivity. Qed.
+
 Lemma rnd_hev_error : forall n d, 0 < d -> 2 * Z.abs (rnd_hev n d * d - n) <= d.
 Proof.
-  intros n d Hd. unfold rnd_hev.
+  intros n d Hd. rewrite rnd_hev_unfold.
   pose proof (Z.div_mod n d ltac:(lia)) as Hdm.
   pose proof (Z.mod_pos_bound n d Hd) as Hr.
   destruct (2 * (n mod d) <? d) eqn:E1; [nia|].
@@ -19,7 +24,7 @@ Qed.
 
 Lemma rnd_hev_nonneg : forall n d, 0 < d -> 0 <= n -> 0 <= rnd_hev n d.
 Proof.
-  intros n d Hd Hn. unfold rnd_hev.
+  intros n d Hd Hn. rewrite rnd_hev_unfold.
   pose proof (Z.div_pos n d Hn Hd).
   destruct (2 * (n mod d) <? d); [lia|].
   destruct (d <? 2 * (n mod d)); [lia|].
@@ -28,7 +33,7 @@ Qed.
 
 Lemma rnd_hev_exact : forall n d, 0 < d -> rnd_hev (n * d) d = n.
 Proof.
-  intros n d Hd. unfold rnd_hev. rewrite Z.mod_mul by lia. rewrite Z.div_mul by lia.
+  intros n d Hd. rewrite rnd_hev_unfold. rewrite Z.mod_mul by lia. rewrite Z.div_mul by lia.
   destruct (2 * 0 <? d) eqn:E; lia.
 Qed.
 
@@ -36,7 +41,7 @@ Lemma rnd_hev_mono : forall a b d, 0 < d -> a <= b -> rnd_hev a d <= rnd_hev b d
 Proof.
   intros a b d Hd Hab.
   destruct (Z.eq_dec (a / d) (b / d)) as [Heq|Hne].
-  - unfold rnd_hev. rewrite Heq.
+  - rewrite !rnd_hev_unfold. rewrite Heq.
     pose proof (Z.div_mod a d ltac:(lia)). pose proof (Z.div_mod b d ltac:(lia)).
     assert (a mod d <= b mod d) by nia.
     destruct (2 * (a mod d) <? d) eqn:A1; destruct (2 * (b mod d) <? d) eqn:B1; try lia;
@@ -44,20 +49,26 @@ Proof.
     destruct (Z.even (b / d)); lia.
   - assert (a / d < b / d) by (pose proof (Z.div_le_mono a b d Hd Hab); lia).
     assert (rnd_hev a d <= a / d + 1).
-    { unfold rnd_hev. destruct (2 * (a mod d) <? d); [lia|].
+    { rewrite rnd_hev_unfold. destruct (2 * (a mod d) <? d); [lia|].
       destruct (d <? 2 * (a mod d)); [lia|]. destruct (Z.even (a / d)); lia. }
     assert (b / d <= rnd_hev b d).
-    { unfold rnd_hev. destruct (2 * (b mod d) <? d); [lia|].
+    { rewrite rnd_hev_unfold. destruct (2 * (b mod d) <? d); [lia|].
       destruct (d <? 2 * (b mod d)); [lia|]. destruct (Z.even (b / d)); lia. }
     lia.
 Qed.
 
 (* ------------------------------------------------------------------ dyadic basics *)
+Lemma pow2_eq : forall k, 0 <= k -> pow2 k = 2 ^ k.
+Proof. intros k H. unfold pow2. rewrite Z.shiftl_mul_pow2 by lia. lia. Qed.
+
+Lemma pow2_pos : forall k, 0 <= k -> 0 < pow2 k.
+Proof. intros k H. rewrite pow2_eq by lia. apply Z.pow_pos_nonneg; lia. Qed.
+
 Lemma dden_pos : forall x, 0 < dden x.
-Proof. intros x. unfold dden. apply Z.pow_pos_nonneg; lia. Qed.
+Proof. intros x. unfold dden. apply pow2_pos. lia. Qed.
 
 Lemma dnum_nonneg : forall x, 0 <= dmag x -> 0 <= dnum x.
-Proof. intros x H. unfold dnum. apply Z.mul_nonneg_nonneg; [lia|]. apply Z.pow_nonneg; lia. Qed.
+Proof. intros x H. unfold dnum. apply Z.mul_nonneg_nonneg; [lia|]. pose proof (pow2_pos (Z.max (dexp x) 0)). lia. Qed.
 
 Lemma pow10_pos : forall p : nat, 0 < 10 ^ Z.of_nat p.
 Proof. intros p. apply Z.pow_pos_nonneg; lia. Qed.
@@ -89,12 +100,15 @@ Proof.
   - destruct (Ascii.eqb_spec c "."%char) as [->|]; [discriminate H|reflexivity].
 Qed.
 
+Lemma digs_S : forall k n, digs (S k) n = digs k (n / 10) ++ [digit (n mod 10)].
+Proof. intros k n. cbn [digs]. unfold Z.div, Z.modulo. destruct (Z.div_eucl n 10). reflexivity. Qed.
+
 Lemma digs_length : forall k n, length (digs k n) = k.
-Proof. induction k; intros n; cbn [digs]; [reflexivity|]. rewrite app_length, IHk. cbn. lia. Qed.
+Proof. induction k; intros n; [reflexivity|]. rewrite digs_S, app_length, IHk. cbn. lia. Qed.
 
 Lemma digs_all_digits : forall k n, Forall (fun c => is_digit c = true) (digs k n).
 Proof.
-  induction k; intros n; cbn [digs]; [constructor|].
+  induction k; intros n; [constructor|]. rewrite digs_S.
   apply Forall_app. split; [apply IHk|]. constructor; [|constructor].
   apply digit_ok. apply Z.mod_pos_bound. lia.
 Qed.
@@ -121,7 +135,7 @@ Lemma take_digits_digs : forall k n rest acc cnt,
 Proof.
   induction k; intros n rest acc cnt.
   - cbn [digs app]. rewrite Z.pow_0_r, Z.mod_1_r. f_equal; lia.
-  - cbn [digs]. rewrite <- app_assoc. cbn [app]. rewrite IHk. cbn [take_digits].
+  - rewrite digs_S. rewrite <- app_assoc. cbn [app]. rewrite IHk. cbn [take_digits].
     destruct (digit_ok (n mod 10)) as [Hd Hv]; [apply Z.mod_pos_bound; lia|].
     rewrite Hd, Hv. f_equal.
     + rewrite Nat2Z.inj_succ. rewrite <- Z.add_1_r.
